@@ -19,9 +19,11 @@ Print Assumptions opt_rejects_with_value_error.
 
 (* A constructed option: exactly one value type, exactly one name preference, value-less =>
    takes no value and has no default, multi-valued => requires a value and has a list default,
+   the default it holds is the VALUE it was given (whatever that is: '' 0 False and tuples included - the model carries
+   it as an opaque payload) or, when none was given, None / the empty list of a multi-valued option (on_default_kept),
    normalisation only adds bits and only among bits 0,1,2,3,7. *)
 Theorem opt_normal_form : forall ln sn f d o, mk_option ln sn f d = Ok o ->
-  opt_normal f (oo_flags o) (match oo_short o with Some _ => true | None => false end) (oo_default o).
+  opt_normal f (oo_flags o) (match oo_short o with Some _ => true | None => false end) d (oo_default o).
 Proof. exact opt_normal_form_lemma. Qed.
 Print Assumptions opt_normal_form.
 
@@ -30,9 +32,49 @@ Theorem arg_accept_iff : forall n f d,
 Proof. exact arg_accept_iff_lemma. Qed.
 Print Assumptions arg_accept_iff.
 
-Theorem arg_normal_form : forall n f d o, mk_argument n f d = Ok o -> arg_normal f (ao_flags o) (ao_default o).
+(* ... a required argument was given no default and holds none; the default held is the value given (an_default_kept) *)
+Theorem arg_normal_form : forall n f d o, mk_argument n f d = Ok o -> arg_normal f (ao_flags o) d (ao_default o).
 Proof. exact arg_normal_form_lemma. Qed.
 Print Assumptions arg_normal_form.
+
+(* ---- names: accepted exactly when well-formed, with or without their dash prefix ----
+   long_ok / short_ok above are the validators' own verdicts; these theorems say what that verdict is, character by
+   character: wf_long_name s := at least two characters, the first an ASCII letter, all of [a-zA-Z0-9-]; wf_short_name := one
+   ASCII letter; wf_name_body (argument names, long aliases) := non-empty, first an ASCII letter, all of [a-zA-Z0-9-].
+   A leading "--" (long) / "-" (short) is removed first, and the name kept is the one without it. *)
+Theorem long_name_ok_iff : forall s,
+  validate_long_name (NStr s) =
+  if wf_long_name (strip_prefix [DASH; DASH] s) then Ok (strip_prefix [DASH; DASH] s) else Err ValueError.
+Proof. exact long_name_ok_iff_lemma. Qed.
+Print Assumptions long_name_ok_iff.
+Theorem short_name_ok_iff : forall s f,
+  validate_short_name (NStr s) f =
+  if wf_short_name (strip_prefix [DASH] s) then Ok (Some (strip_prefix [DASH] s)) else Err ValueError.
+Proof. exact short_name_ok_iff_lemma. Qed.
+Print Assumptions short_name_ok_iff.
+Theorem arg_name_ok_iff : forall s, validate_arg_name (NStr s) = if wf_name_body s then Ok s else Err ValueError.
+Proof. exact arg_name_ok_iff_lemma. Qed.
+Print Assumptions arg_name_ok_iff.
+Theorem long_name_with_or_without_prefix : forall s, wf_long_name s = true ->
+  validate_long_name (NStr s) = Ok s /\ validate_long_name (NStr (DASH :: DASH :: s)) = Ok s.
+Proof. exact long_name_with_or_without_prefix_lemma. Qed.
+Print Assumptions long_name_with_or_without_prefix.
+Theorem short_name_with_or_without_prefix : forall c f, is_ascii_alpha c = true ->
+  validate_short_name (NStr [c]) f = Ok (Some [c]) /\ validate_short_name (NStr [DASH; c]) f = Ok (Some [c]).
+Proof. exact short_name_with_or_without_prefix_lemma. Qed.
+Print Assumptions short_name_with_or_without_prefix.
+(* aliases of a command option: "--x" must be a well-formed long name; otherwise one "-" is removed and what is left is a
+   short alias when it is one letter, a long alias when it is a well-formed body of another length *)
+Theorem alias_ok_iff : forall a,
+  validate_alias a =
+  if starts_with [DASH; DASH] a then
+    (let s := strip_prefix [DASH; DASH] a in if wf_long_name s then Ok (false, s) else Err ValueError)
+  else
+    (let s := strip_prefix [DASH] a in
+     if wf_short_name s then Ok (true, s)
+     else if wf_name_body s && negb (Nat.eqb (length s) 1) then Ok (false, s) else Err ValueError).
+Proof. exact alias_ok_iff_lemma. Qed.
+Print Assumptions alias_ok_iff.
 
 (* ---- the hand model re-checked against the source on every build ----
    Generated/GenFlags.v is what harness/translate.py (a fail-closed translator of a small pure subset of Python) makes of
@@ -94,20 +136,46 @@ Theorem conv_typed : forall t nl v, conv_input v = true ->
 Proof. exact conv_typed_lemma. Qed.
 Print Assumptions conv_typed.
 
-(* The text form of EVERY integer converts back to that integer; likewise booleans. *)
-Theorem conv_int_roundtrip : forall z nl, parse_int (VStr (dec_text z)) nl = Ok (VInt z).
+(* The text form of every integer of at most 4300 decimal digits converts back to that integer, and that is its text form;
+   int_text_ok z := num_digits z <= 4300 is CPython's own criterion (sys.get_int_max_str_digits(), an interpreter default
+   outside clikit): beyond it str(z) and int(text) both raise ValueError, which is what the second theorem says. *)
+Theorem conv_int_roundtrip : forall z nl, int_text_ok z = true -> parse_int (VStr (dec_text z)) nl = Ok (VInt z).
 Proof. exact conv_int_roundtrip_lemma. Qed.
 Print Assumptions conv_int_roundtrip.
-Theorem conv_int_text : forall z nl, parse_string (VInt z) nl = Ok (VStr (dec_text z)).
+Theorem conv_int_text : forall z nl, int_text_ok z = true -> parse_string (VInt z) nl = Ok (VStr (dec_text z)).
 Proof. exact conv_int_text_lemma. Qed.
 Print Assumptions conv_int_text.
+Theorem conv_int_there_and_back : forall z nl, int_text_ok z = true ->
+  bind (parse_string (VInt z) nl) (fun t => parse_int t nl) = Ok (VInt z).
+Proof. exact conv_int_there_and_back_lemma. Qed.
+Print Assumptions conv_int_there_and_back.
+Theorem conv_int_beyond_limit : forall z nl, int_text_ok z = false ->
+  parse_string (VInt z) nl = Err ValueError /\ parse_int (VStr (dec_text z)) nl = Err ValueError.
+Proof. exact conv_int_beyond_limit_lemma. Qed.
+Print Assumptions conv_int_beyond_limit.
+(* float(z) of an integer: ValueError (CPython's OverflowError, caught since fix c07-float-overflow) exactly when |z| rounds
+   to 2^1024 or more; otherwise the float written like the integer *)
+Theorem conv_float_of_int : forall z,
+  parse_float (VInt z) false = if (2 ^ 1024 - 2 ^ 970 <=? Z.abs z)%Z then Err ValueError else Ok (VFloat (dec_text z)).
+Proof. exact conv_float_of_int_lemma. Qed.
+Print Assumptions conv_float_of_int.
 Theorem conv_bool_roundtrip : forall b nl,
   bind (parse_string (VBool b) nl) (fun t => parse_boolean t nl) = Ok (VBool b).
 Proof. exact conv_bool_roundtrip_lemma. Qed.
 Print Assumptions conv_bool_roundtrip.
 
 Example c07_nonvacuous :
-  is_ok (mk_option (NStr [45;45;102;111;111]%N) (NStr [45;102]%N) 32 DList) = true /\
+  is_ok (mk_option (NStr [45;45;102;111;111]%N) (NStr [45;102]%N) 32 (DList [])) = true /\
   is_ok (mk_option (NStr [102;111;111]%N) NNone 36 DNone) = false /\
-  parse_int (VStr (dec_text (-1234567890123456789012345)%Z)) false = Ok (VInt (-1234567890123456789012345)%Z).
-Proof. vm_compute. auto. Qed.
+  int_text_ok (-1234567890123456789012345)%Z = true /\
+  parse_int (VStr (dec_text (-1234567890123456789012345)%Z)) false = Ok (VInt (-1234567890123456789012345)%Z) /\
+  (* a falsy default is a default: kept by an option that takes a value, refused by a value-less one and a required argument *)
+  option_map oo_default (match mk_option (NStr [102;111;111]%N) NNone 8 (DScalar (L [A 3%Z; L []])) with Ok o => Some o | Err _ => None end)
+    = Some (DScalar (L [A 3%Z; L []])) /\
+  is_ok (mk_option (NStr [102;111;111]%N) NNone 4 (DScalar (L [A 2%Z; A 0%Z]))) = false /\
+  is_ok (mk_argument (NStr [97]%N) 1 (DList [])) = false /\
+  (* non-ASCII decimal digits are digits (ARABIC-INDIC 1 2 -> 12), more than 4300 digits are refused *)
+  parse_int (VStr [1633; 1634]%N) false = Ok (VInt 12) /\
+  parse_int (VStr (repeat 49%N 4301)) false = Err ValueError /\
+  is_ok (parse_int (VStr (repeat 49%N 4300)) false) = true.
+Proof. vm_compute. repeat split; reflexivity. Qed.
